@@ -148,6 +148,13 @@ func c04run(out *rec.Out, c c04case, rng *rec.Rng, stats map[string]int) {
 	}
 	en := g.Add("endEvent", "end", "")
 	drng := rng.Fork()
+	if (c.c+c.truth)%4 == 0 {
+		// first in the list: a flow whose condition reads a variable that no instance of this document defines — false
+		bu := g.Add("task", "BU", "")
+		g.Connect(x, bu, &eng.Cond{Op: "eq", Var: "vu", K: 1})
+		g.Connect(bu, en, nil)
+		stats["conditions_on_an_undefined_variable"]++
+	}
 	for j := 0; j < nOut; j++ {
 		b := g.Add("task", fmt.Sprintf("B%d", j), "")
 		if j == c.defPos {
@@ -217,20 +224,26 @@ func c04run(out *rec.Out, c c04case, rng *rec.Rng, stats map[string]int) {
 	if c.toks == 1 && (c.c+c.defPos)%2 == 0 {
 		// the SAME document in the OTHER expression language ran earlier in this program (same ids, and for the `<`
 		// conditions the same source text): nothing of it may be left when the document under test runs
-		g.XPath = !g.XPath
-		decoy := g.XML()
-		g.XPath = !g.XPath
-		if in0, _, err := eng.Start(decoy, anyVars); err == nil {
-			for k := 0; k < 4 && in0.Quiesce(2*timeSecond); k++ {
-				p0 := in0.Pending()
-				if len(p0) == 0 {
-					break
-				}
-				in0.AnswerOK(p0[0], nil)
-			}
-			in0.Stop(2 * timeSecond)
-			stats["cases_after_the_same_document_in_the_other_language"]++
+		// … in both languages, with one more variable (`vu`) that no instance of the document under test defines
+		earlier := map[string]any{"vu": 1}
+		for k, v := range anyVars {
+			earlier[k] = v
 		}
+		for pass := 0; pass < 2; pass++ {
+			g.XPath = !g.XPath
+			decoy := g.XML()
+			if in0, _, err := eng.Start(decoy, earlier); err == nil {
+				for k := 0; k < 4 && in0.Quiesce(2*timeSecond); k++ {
+					p0 := in0.Pending()
+					if len(p0) == 0 {
+						break
+					}
+					in0.AnswerOK(p0[0], nil)
+				}
+				in0.Stop(2 * timeSecond)
+			}
+		}
+		stats["cases_after_the_same_document_in_the_other_language"]++
 	}
 	in, defs, err := eng.Start(g.XML(), anyVars)
 	if err != nil {
